@@ -159,6 +159,18 @@ Example C07_ex_rows :
   d_batch (firstn (5 + length (e_row r1)) (e_batch [r1; r2])) = None.
 Proof. vm_compute. repeat split. Qed.
 
+(* ---- record.Marshal / record.Unmarshal ---- *)
+Theorem C07_record_marshal_roundtrip : forall r rest, record_ok r = true -> d_record (e_record r ++ rest) = Some (r, rest).
+Proof. exact record_marshal_roundtrip. Qed.
+Print Assumptions C07_record_marshal_roundtrip.
+
+Example C07_ex_record :
+  let r : rrecord := ([([105], 1); ([116;105;109;101], 1)],
+                      [(2, (1, (0, ([5;0;0;0;0;0;0;0], ([1], [])))));
+                       (2, (0, (0, ([1;0;0;0;0;0;0;0; 2;0;0;0;0;0;0;0], ([3], [0; 7])))))]) in
+  record_ok r = true /\ d_record (e_record r) = Some (r, []).
+Proof. vm_compute. repeat split. Qed.
+
 (* ---- generated constants (Gen_Consts.v, rewritten from the Go constants on every run): what the model needs of them ---- *)
 Example C07_generated_constants :
   NoDup [g_int_const; g_int_s8; g_int_zstd; g_int_raw] /\ NoDup [g_time_const; g_time_s8; g_time_snappy; g_time_raw] /\
